@@ -88,6 +88,13 @@ class RebuildProp(Prop):
                 m = copy.deepcopy(r)
                 m["count"] = m["present_after"] + 1
                 out.append((m, "C13.count"))
+            for v in (1, 2):      # the implementation-model clause must notice a changed outcome, v1 and v2 rule alike
+                for r in first(recs, lambda r, v=v: good(r) and r["version"] == v and "M13.impl" in r["clauses"] and r["runs"] == 1
+                               and r["ntorrents"] == 1 and r["P"] in (2, 16384, 32768)
+                               and all(f["dest_pre"] == "absent" and f["after"] == "intact" for f in r["files"])):
+                    m = copy.deepcopy(r)
+                    m["files"][-1]["after"] = "absent"
+                    out.append((m, "M13.impl"))
         if self.pid == "C14":
             for r in first(recs, good):
                 m = copy.deepcopy(r)
